@@ -40,7 +40,7 @@ def wrCmd (s : WrSession) (t : CompTable) (ws : List String) : Option (WrSession
     let fa := rest.findSome? fun w => if w.startsWith "fail=" then (w.drop 5).toString.toNat? else none
     let sk := rest.findSome? fun w => if w.startsWith "short=" then (w.drop 6).toString.toNat? else none
     let cp := rest.findSome? fun w => if w.startsWith "comp=" then compOf (w.drop 5).toString else none
-    some ({ db := { manual := manual = "1", w := { failAt := fa, shortK := sk } },
+    some ({ db := { manual := manual = "1", w := { failAt := fa, shortK := sk, failOnce := rest.contains "once" } },
             cfg := ⟨cp.getD .lz4, 4096⟩ }, "ok")
   | ["wr.op", "single", b] =>
     match parseBatch b with
